@@ -263,6 +263,23 @@ func presented(cs []cred, pr parsed) bool {
 	return false
 }
 
+// boundaryShifted: (u, p) is not configured but u+sep+p equals c.u+sep+c.p for a configured c and a common separator (or none).
+func boundaryShifted(cs []cred, u, p []byte) bool {
+	for _, c := range cs {
+		if bytes.Equal(c.u, u) && bytes.Equal(c.p, p) {
+			return false
+		}
+	}
+	for _, c := range cs {
+		for _, sp := range []string{"", ":", "\x00", "/", " ", "\n", "=", "|", ",", ";", "\t"} {
+			if string(u)+sp+string(p) == string(c.u)+sp+string(c.p) {
+				return true
+			}
+		}
+	}
+	return false
+}
+
 func chunkStr(w [][]byte) string {
 	if len(w) == 0 {
 		return "-"
@@ -336,6 +353,11 @@ func (d *drv) judge(kind string, useProxy, csa bool, cs []cred, input, req []byt
 			// one cause, one signature: "no authentication" selected although credentials are configured
 			d.r.Fail("methods-0-and-2-with-credentials", fmt.Sprintf("credentials configured, client sent %s (methods %s): the server selects no-authentication (replies %s), request stage reached = %v, configured pair presented = %v",
 				vh.Hex(input[:min(len(input), 24)]), vh.Hex(pr.methods), replies, reached, ok), mk())
+			return
+		}
+		if reached && !ok && pr.greetingOK && has(pr.methods, 2) && pr.subOK && pr.subVer == 1 && boundaryShifted(cs, pr.u, pr.p) {
+			d.r.Fail("pair-boundary-shifted", fmt.Sprintf("credentials configured; the client presented user %q password %q, which is not a configured pair but has the same user+separator+password string as one: replies %s and the request stage is reached",
+				string(pr.u), string(pr.p), replies), mk())
 			return
 		}
 		if reached && !ok {
@@ -444,7 +466,7 @@ func main() {
 	r := vh.Start("c11")
 	defer r.Finish()
 	d := &drv{r}
-	r.Rep.Rule = "greetings: every method list over {00,01,02,80,ff} of length 1..4 (with order and multiplicity, 780 lists), nmethods 0, 255-entry lists; x credentials none/one/several (incl. 255-byte and empty-password entries); x what follows the greeting: nothing, matching pair, wrong user, wrong password, pair mixed from two entries, prefixes/extensions, empty fields, 255-byte fields, sub-negotiation version 0/2/5; x handleAuthentication (H) and ServeConn in client-side and server-side placement (S); every transcript of the boundary set cut at every byte position; random streams (thorough). Non-trivial/distinct = distinct (entry point, placement, credential config, what-follows kind, method-list class (length class, has 00, has 02, has other), outcome) tuples"
+	r.Rep.Rule = "greetings: every method list over {00,01,02,80,ff} of length 1..4 (with order and multiplicity, 780 lists), nmethods 0, 255-entry lists; x credentials none/one/several (incl. 255-byte and empty-password entries); x what follows the greeting: nothing, matching pair, wrong user, wrong password, pair mixed from two entries, prefixes/extensions, empty fields, 255-byte fields, sub-negotiation version 0/2/5; pair-encoding grid (for every configured pair and every separator none/:/00///space/newline/=: all splits of u+sep+p, separator kept or dropped, case/trim variants, empty fields; credentials containing the separators); x handleAuthentication (H) and ServeConn in client-side and server-side placement (S); every transcript of the boundary set cut at every byte position; random streams (thorough). Non-trivial/distinct = distinct (entry point, placement, credential config, what-follows kind, method-list class (length class, has 00, has 02, has other), outcome) tuples"
 	r.Rep.Notes = map[string]string{}
 
 	user, pass := []byte("user"), []byte("pass")
@@ -540,8 +562,11 @@ func main() {
 				auth := append(append([]byte(nil), g...), s.raw...)
 				cl := c.name + "|" + s.name
 				d.caseH(c.cs, append(append([]byte(nil), auth...), reqClient...), cl)
-				d.caseS(true, true, c.cs, auth, reqClient, -1, cl)
-				d.caseS(false, false, c.cs, auth, reqServer, -1, cl)
+				// ServeConn adds the placement, not the parser: in quick three kinds of what-follows suffice
+				if r.Thorough() || s.name == "nothing" || s.name == "match" || s.name == "wrong-pass" {
+					d.caseS(true, true, c.cs, auth, reqClient, -1, cl)
+					d.caseS(false, false, c.cs, auth, reqServer, -1, cl)
+				}
 			}
 		}
 	}
@@ -550,7 +575,7 @@ func main() {
 	// ---- boundary set: full grid of what follows the greeting; every cut position ----
 	bset := [][]byte{{2}, {0}, {0, 2}, {2, 0}, {1}, {0x80, 2}, {2, 2}, {0, 0}, {0xFF}, {1, 0, 2, 0x80}, long[5], long[4]}
 	for _, c := range cfgs {
-		for _, ml := range bset {
+		for mi, ml := range bset {
 			g := greeting(ml)
 			for _, s := range full {
 				auth := append(append([]byte(nil), g...), s.raw...)
@@ -572,11 +597,17 @@ func main() {
 				}
 				// truncation at every byte position (long fields: every position in quick only for short transcripts)
 				total := len(auth) + len(reqClient)
-				if total > 300 && !r.Thorough() && s.name != "255-match" {
-					continue
-				}
-				if total > 300 && !r.Thorough() && len(ml) > 4 {
-					continue
+				if !r.Thorough() {
+					// quick: where the stream ends matters, not which wrong pair it carries: every position of
+					// {nothing, match, wrong-pass, empty-both, subver5, 255-match} after four greetings
+					if mi > 3 && mi != 9 {
+						continue
+					}
+					switch s.name {
+					case "nothing", "match", "wrong-pass", "empty-both", "subver5", "255-match":
+					default:
+						continue
+					}
 				}
 				for cut := 0; cut < total; cut++ {
 					if total > 300 && !r.Thorough() && cut > 12 && cut < total-14 && cut%37 != 0 {
@@ -584,7 +615,7 @@ func main() {
 					}
 					in := append(append([]byte(nil), auth...), reqClient...)[:cut]
 					d.caseH(c.cs, in, cl+"|cut")
-					if r.Thorough() || cut%2 == 0 || total <= 40 {
+					if r.Thorough() || (mi <= 2 && total <= 40) {
 						d.caseS(true, true, c.cs, auth, reqClient, cut, cl+"|cut")
 						d.caseS(false, false, c.cs, auth, reqServer, cut, cl+"|cut")
 					}
@@ -595,6 +626,105 @@ func main() {
 	}
 
 	phase("boundary_and_cuts")
+	// ---- the PAIR is what is configured, not a string built from it ----
+	// Any implementation that indexes or compares an encoding of (user, password) that is not injective
+	// (user+":"+password, user+password, user+"\x00"+password, a case-folded or trimmed form ...) accepts a pair
+	// that is not configured.  For every configured pair (u, p) and every separator sep (also none):
+	// all splits of u+sep+p into (left, right), with the separator kept on either side or dropped at the split;
+	// plus pairs equal up to case, trailing/leading bytes, and empty fields.
+	seps := [][]byte{nil, []byte(":"), {0}, []byte("/"), []byte(" "), []byte("\n"), []byte("=")}
+	cat := func(parts ...[]byte) []byte {
+		var o []byte
+		for _, x := range parts {
+			o = append(o, x...)
+		}
+		return o
+	}
+	type pcfg struct {
+		name string
+		cs   []cred
+	}
+	var pcfgs []pcfg
+	for _, sp := range seps[1:] {
+		pcfgs = append(pcfgs, pcfg{fmt.Sprintf("sep%02x", sp[0]), []cred{
+			{[]byte("alice"), cat([]byte("wonder"), sp, []byte("land"))}, // separator inside the password
+			{cat([]byte("bob"), sp, []byte("by")), []byte("secret")},   // ... inside the user
+			{cat([]byte("eve"), sp), cat(sp, []byte("pw"))},            // ... at the boundary, both sides
+			{[]byte("carol"), nil},                                      // empty password (RFC 1929 allows length 0)
+			{nil, []byte("onlypw")},                                     // empty user
+		}})
+	}
+	pcfgs = append(pcfgs,
+		pcfg{"plain", []cred{{[]byte("alice"), []byte("wonder")}, {[]byte("al"), []byte("icewonder2")}, {[]byte("x"), nil}, {nil, []byte("y")}}},
+		pcfg{"norm", []cred{{[]byte("Dave "), []byte(" Pw\n")}, {[]byte("erin"), []byte("Secret")}, {[]byte("tab\t"), []byte("pw\x00")}}},
+		pcfg{"emptyboth", []cred{{nil, nil}, {[]byte("a"), []byte("b")}}})
+	npairs := 0
+	for _, pc := range pcfgs {
+		seen := map[string]bool{}
+		var cands []cred
+		add := func(u, p []byte) {
+			if len(u) > 255 || len(p) > 255 {
+				return
+			}
+			k := string(u) + "\x00|\x01" + string(p) + fmt.Sprint(len(u))
+			if !seen[k] {
+				seen[k] = true
+				cands = append(cands, cred{append([]byte(nil), u...), append([]byte(nil), p...)})
+			}
+		}
+		for _, c := range pc.cs {
+			add(c.u, c.p)
+			for _, sp := range seps {
+				str := cat(c.u, sp, c.p)
+				for k := 0; k <= len(str); k++ {
+					add(str[:k], str[k:])
+					if len(sp) > 0 && bytes.HasPrefix(str[k:], sp) {
+						add(str[:k], str[k+len(sp):]) // the separator itself is the boundary
+					}
+				}
+				// separator appended/prepended to one field
+				add(cat(c.u, sp), c.p)
+				add(c.u, cat(sp, c.p))
+				add(c.u, cat(c.p, sp))
+				add(cat(sp, c.u), c.p)
+			}
+			// equal up to case / surrounding bytes / swapped
+			add(bytes.ToUpper(c.u), c.p)
+			add(c.u, bytes.ToUpper(c.p))
+			add(bytes.ToLower(c.u), bytes.ToLower(c.p))
+			add(bytes.TrimSpace(c.u), bytes.TrimSpace(c.p))
+			add(bytes.TrimRight(c.u, "\x00"), bytes.TrimRight(c.p, "\x00"))
+			add(bytes.ToLower(bytes.TrimSpace(c.u)), bytes.ToLower(bytes.TrimSpace(c.p)))
+			add(c.p, c.u)
+			add(c.u, nil)
+			add(nil, c.p)
+			add(nil, nil)
+			add(nil, cat(c.u, c.p))
+			add(cat(c.u, c.p), nil)
+			// user of one entry with the password of another
+			for _, c2 := range pc.cs {
+				add(c.u, c2.p)
+			}
+		}
+		for k, x := range cands {
+			g := greeting([]byte{2})
+			if k%3 == 1 {
+				g = greeting([]byte{0, 2})
+			}
+			auth := append(append([]byte(nil), g...), subneg(1, x.u, x.p)...)
+			cl := "pair|" + pc.name
+			d.caseH(pc.cs, append(append([]byte(nil), auth...), reqClient...), cl)
+			if r.Thorough() || k%4 == 0 {
+				d.caseS(true, true, pc.cs, auth, reqClient, -1, cl)
+				d.caseS(false, false, pc.cs, auth, reqServer, -1, cl)
+			}
+			r.Count("pair-encoding")
+			npairs++
+		}
+	}
+	r.Rep.Notes["pair_encoding"] = fmt.Sprintf("%d supplied pairs over %d credential configurations (separators none : 00 / space \\n =; all splits of u+sep+p; case, trimming, empty fields)", npairs, len(pcfgs))
+
+	phase("pair_encoding")
 	// ---- malformed / random streams ----
 	nrand := 3000
 	if r.Thorough() {
